@@ -376,7 +376,44 @@ func modeC07(thorough bool) {
 }
 
 // ---------------------------------------------------------------- C12: EDNS0 / ECS
+
+// background refreshes carry the ECS of the client whose hit started them: every hot name belongs to one
+// client subnet, other subnets keep the request objects busy while the refresh goroutines start (two Ps)
+func modeC12Prefetch(nopoison bool) {
+	in, err := newInst("c12-pf", instOpts{
+		listeners: []string{"udp", "tcp"}, upstreams: map[string]string{"u1": "udp"}, rules: []ruleSpec{{Forward: "u1"}},
+		cacheMem: 4 << 20, ecs: true,
+	})
+	if err != nil {
+		panic(err)
+	}
+	defer in.close()
+	var hot []string
+	for i := 0; i < 24; i++ {
+		hot = append(hot, fmt.Sprintf("%s.r0t8d%d.pf.test.", uniq(), 5+i%10))
+	}
+	par(len(hot), func(i int) { in.send("udp", fmt.Sprintf("127.0.%d.1", 21+i), mkq(hot[i]), 3*time.Second, nil) })
+	time.Sleep(6350 * time.Millisecond)
+	old := runtime.GOMAXPROCS(2)
+	for round := 0; round < 3; round++ {
+		par(len(hot)*4, func(i int) {
+			if i%4 == 0 {
+				if round == 0 {
+					in.send("udp", fmt.Sprintf("127.0.%d.1", 21+i/4), mkq(hot[i/4]), 3*time.Second, nil)
+				}
+				return
+			}
+			in.send([]string{"udp", "tcp"}[i%2], fmt.Sprintf("127.0.%d.9", 100+i%50), mkq(fmt.Sprintf("%s.r0t60d2.other.test.", uniq())), 3*time.Second, nil)
+		})
+	}
+	runtime.GOMAXPROCS(old)
+	time.Sleep(300 * time.Millisecond)
+}
+
 func modeC12(thorough bool) {
+	pfDone := make(chan struct{})
+	go func() { defer close(pfDone); modeC12Prefetch(false) }()
+	defer func() { <-pfDone }()
 	for _, ecs := range []bool{true, false} {
 		in, err := newInst(fmt.Sprintf("c12-ecs%v", ecs), instOpts{
 			listeners: []string{"udp", "tcp", "http", "fasthttp", "quic"},
